@@ -121,6 +121,10 @@ def make_oracle(docs):
                         "what": "%s at step %d of %s: reply %r, manager stopped: %s"
                                 % ({"T": "time-out", "W": "write error", "R": "read error"}[fault[0]],
                                    meta["step"], meta["name"], r["raw"][:60], r["stop"])}
+        if fault[0] == "none" and (r["stop"] or j is None or not isinstance(j.get("errorcode"), int)):
+            return {"key": "C04:%s:honest-without-code" % cmdname,
+                    "what": "%s against an honest device: reply %r, manager stopped: %s"
+                            % (meta["name"], r["raw"][:80], r["stop"])}
         if j is None or not isinstance(j.get("errorcode"), int):
             return None      # unanswered / stopped: allowed outside the device range (C03 covers requests)
         code = j["errorcode"]
@@ -169,6 +173,12 @@ def gen_cases(rng, tier, words=None):
         # the code an honest run must produce is what the DEVICE reported (0 total / 1 partial success), not what
         # the implementation made of it
         dv = commands.device_verdict(cmdname, obs["device"])
+        if j is None or not isinstance(j.get("errorcode"), int):
+            # the honest exchange itself ends without a result code: reported by the oracle below
+            cases.append({"mode": mode, "kind": "ledger", "lines": [gen.line(req)], "device": dev(),
+                          "meta": {"name": name, "command": cmdname, "honest_code": 0 if dv is None else dv,
+                                   "fault": ("none",), "step": -1, "reached": (lambda o: True), "step_kind": None}})
+            continue
         base = {"name": name, "command": cmdname, "honest_code": j["errorcode"] if dv is None else dv}
         cases.append({"mode": mode, "kind": "ledger", "lines": [gen.line(req)], "script": list(answers),
                       "meta": dict(base, fault=("none",), step=-1, reached=lambda o: True, step_kind=None)})
